@@ -3,5 +3,5 @@ EXTENDS MCSchema
 Space == SSplit(0)
 \* the tree of m is the same for every partition
 Unsplit == FlatOf(ModuleTree(SplitProg([k \in 1..4 |-> "m"], "flat").mods, "m").root, <<>>, "urn:m", FALSE, TRUE)
-SplitInvariant == (pc = "order") => FlatOf(trees["m"], <<>>, "urn:m", FALSE, TRUE) = Unsplit
+SplitInvariant == (pc = "order" /\ ~errs) => FlatOf(trees["m"], <<>>, "urn:m", FALSE, TRUE) = Unsplit
 ====
